@@ -17,6 +17,14 @@ Theorem C17_pause_bounds :
 Proof. exact generic_retry_bounds. Qed.
 Print Assumptions C17_pause_bounds.
 
+(* the bounds are meant for MinWait <= MaxWait; for an ill-formed policy (MinWait > MaxWait)
+   the code as written yields MaxWait for every pause *)
+Theorem C17_pause_min_gt_max :
+  forall (p : policy) (attempt : Z) (o : outcome) (d : Z),
+    p_max p < p_min p -> generic_retry p attempt o = DWait d -> d = p_max p.
+Proof. exact generic_retry_min_gt_max. Qed.
+Print Assumptions C17_pause_min_gt_max.
+
 (* ... hence every pause the transport actually makes, for every script, body,
    cancellation and policy *)
 Theorem C17_trace_pauses :
